@@ -252,10 +252,10 @@ static void case_dict(unsigned char *b, size_t n, unsigned char *b2, size_t n2, 
     restore_dict();
 }
 
-static void dump_config(config_t *c, const char *only)
+static void dump_config_tag(config_t *c, const char *only, const char *tag)
 {
     const config_param_t *p;
-    printf("%s cfg", cur_id);
+    printf("%s %s", cur_id, tag);
     for (p = defs; p->name; p++) {
         const anytype_t *v;
         if (only && strcmp(only, p->name)) continue;
@@ -270,6 +270,8 @@ static void dump_config(config_t *c, const char *only)
     printf("\n");
 }
 
+static void dump_config(config_t *c, const char *only) { dump_config_tag(c, only, "cfg"); }
+
 static void case_json(unsigned char *b, size_t n, const char *flag)
 {
     char *s = cstr(b, n);
@@ -281,6 +283,25 @@ static void case_json(unsigned char *b, size_t n, const char *flag)
         dump_config(c, NULL);
         js = config_serialize_json(c);
         printf("%s ser %s\n", cur_id, js ? "ok" : "null");
+        if (js) {
+            /* round trip: what the library writes it must read back to the same values; the
+             * serialisation is handed over in an exactly-sized copy */
+            char *copy = (char *)malloc(strlen(js) + 1);
+            config_t *c3;
+            strcpy(copy, js);
+            printf("%s serlen %zu\n", cur_id, strlen(js));
+            c3 = config_parse_json(NULL, copy);
+            if (c3 == NULL) printf("%s rt rej\n", cur_id);
+            else {
+                const char *js2;
+                printf("%s rt ok\n", cur_id);
+                dump_config_tag(c3, NULL, "cfg2");
+                js2 = config_serialize_json(c3);
+                printf("%s rt2 %s\n", cur_id, js2 && !strcmp(js2, copy) ? "same" : (js2 ? "differs" : "null"));
+                config_free(c3);
+            }
+            free(copy);
+        }
         if (flag && (!strcmp(flag, "fe") || !strcmp(flag, "full"))) {
             /* use: the front end and feature module configured from it */
             fe_t *fe;
